@@ -720,7 +720,7 @@ func TestC20(t *testing.T) {
 						{{Kind: "open", Peer: 0, Dir: "in"}, {Kind: "open", Peer: 0, Dir: "out"}, {Kind: "del", Peer: 0}},
 						{{Kind: "keepalive", Peer: 0, Dir: "in"}, {Kind: "keepalive", Peer: 0, Dir: "out"}, {Kind: "del", Peer: 0}},
 					} {
-						if !yield(c10Case{Peers: []c10Peer{{Park: park, SpinCb: spin, SpinLong: true}}, API: "close", Conc: conc}) {
+						if !yield(c10Case{Peers: []c10Peer{{Park: park, SpinCb: spin, SpinUs: 2000}}, API: "close", Conc: conc}) {
 							return
 						}
 					}
